@@ -7,7 +7,7 @@ VERIF = os.path.dirname(HERE)
 STORE = os.path.join(VERIF, 'refactors')
 REPO = '/repo'
 sys.path.insert(0, HERE)
-from seeded import sh, scratch, apply_patch
+from seeded import sh, scratch, apply_patch, tree_with
 
 
 def do_import(rid, src):
@@ -46,15 +46,14 @@ def run(only=None, tier='quick'):
         sd = os.path.join(STORE, name)
         if not os.path.isdir(sd) or (only and only not in name):
             continue
-        d, dst = scratch()
+        d, dst, xenv, okp = tree_with(os.path.join(sd, 'patch.diff'))
         try:
-            okp, pout = apply_patch(dst, os.path.join(sd, 'patch.diff'))
             if not okp:
                 rows.append((name, 'PATCH-DOES-NOT-APPLY', ''))
                 continue
             alarms = []
             for p in sorted(P.PROPS if not os.environ.get('REFACTOR_PROPS') else os.environ['REFACTOR_PROPS'].split(',')):
-                rc, out = sh([os.path.join(VERIF, 'check'), p, tier], VERIF, {'VERIF_REPO': dst, 'VERIF_NO_EVIDENCE': '1', 'VERIF_CONTROLS': '0'})
+                rc, out = sh([os.path.join(VERIF, 'check'), p, tier], VERIF, dict({'VERIF_REPO': dst, 'VERIF_NO_EVIDENCE': '1', 'VERIF_CONTROLS': '0'}, **xenv))
                 if rc != 0:
                     first = [l.strip() for l in out.splitlines() if l and not l.startswith(('VIOLATION', 'KNOWN', ' ')) and ':' in l][:2]
                     alarms.append('%s(rc=%d): %s' % (p, rc, ' / '.join(first)[:400]))
